@@ -41,13 +41,16 @@ CLAIMED["C01"] = dict(
 CLAIMED["C02"] = dict(
     category="proof",
     text=("Under the hyperparameter correspondence of each of the five grafting targets, one real warm-up group step is proved (all values, all flag paths) to "
-          "produce the parameter and carried state of the documented torch.optim update; after warm-up the applied direction is proved to be the Shampoo "
-          "direction times ||graft||/(||shampoo||+1e-16); _instantiate_grafting's config->(beta2, epsilon, bias-correction) wiring is proved on the real code. "
-          "The torch.optim side is the documented algorithm (assumed contract), validated natively against the real torch.optim classes every run (bounded)."),
+          "produce the parameter that the REAL torch.optim._single_tensor_{sgd,adagrad,rmsprop,adam,adamw} function produces when shadow-executed on the same symbolic "
+          "state (the carried state correspondence is an auxiliary invariant); a block of the group without gradient keeps its grafting state untouched, as torch.optim "
+          "skips parameters whose grad is None; DistributedShampoo.step's per-group loop (one group step per group with gradients, none for the others, the loop never "
+          "stops early) is discharged by the step/flags contract cases; after warm-up the applied direction is proved to be the Shampoo direction times "
+          "||graft||/(||shampoo||+1e-16); _instantiate_grafting's config->(beta2, epsilon, bias-correction) wiring is proved on the real code."),
     design_ref="DESIGN.md §4/C02",
-    note=("torch.optim update rules are an assumed contract (validated natively, bounded); side conditions SGD dampening=0, Adagrad lr_decay=0, RMSprop "
-          "centered=False/momentum=0, per-parameter step == group step; axiom instances for integer powers, sqrt and Frobenius-norm homogeneity; real arithmetic"),
-    technique=E2 + "; NRA with sqrt/pow axiom instances and separately discharged lemmas",
+    note=("the torch.optim side is the real single-tensor implementation of the installed torch (its foreach / fused variants are assumed equivalent); side conditions SGD "
+          "dampening=0, Adagrad lr_decay=0, RMSprop centered=False/momentum=0, per-parameter step == group step for the Adam variants; axiom instances for integer powers, "
+          "sqrt and Frobenius-norm homogeneity; real arithmetic; real optimizer vs real torch.optim classes with absent gradients and two parameter groups is bounded"),
+    technique=E2 + "; oracle = the real torch.optim single-tensor functions shadow-executed; NRA with sqrt/pow axiom instances and separately discharged lemmas",
 )
 
 CLAIMED["C03"] = dict(
